@@ -15,7 +15,7 @@
 Require Import GM.model.Base GM.model.Util GM.model.UtilI GM.model.Ids GM.model.SpecMech GM.model.SpecDoc
                GM.model.HtmlWriter GM.model.Refs GM.model.Blocks.
 Require Import GM.gen.Tables GM.gen.Entities.
-Require Import GM.proofs.SpecMechProofs GM.proofs.SpecTextProofs GM.proofs.SpecDocProofs.
+Require Import GM.proofs.SpecMechProofs GM.proofs.SpecTextProofs GM.proofs.SpecDocProofs GM.proofs.SpecTabProofs.
 Open Scope N_scope.
 
 (* the hard-break test (parser.go, after the fix) looks at the parity of the final run of
@@ -94,6 +94,13 @@ Print Assumptions C02_html_of_spelling_independent.
 Theorem C02_md_of_final_newline : forall tabs d, md_of tabs true d = md_of tabs false d ++ [10].
 Proof. exact md_of_final_newline. Qed.
 Print Assumptions C02_md_of_final_newline.
+
+(* the tab spelling md_of uses for structural indentation keeps every byte of the line in its
+   column: expanding tabs to the next multiple of four, as the specification does for block
+   structure, gives the same bytes as for the line written with blanks *)
+Theorem C02_tab_spelling_same_columns : forall l, expand (line_md true l) 0 = expand (line_md false l) 0.
+Proof. exact line_md_same_columns. Qed.
+Print Assumptions C02_tab_spelling_same_columns.
 
 (* non-vacuity: the design-time deviation (three backslashes before the line end) is a hard break *)
 Example C02_demo : line_break_kind [97; 92; 92; 92; 10] = 1 /\ line_break_kind [97; 92; 92; 10] = 3.
